@@ -53,10 +53,9 @@ theorem fx_typing (env : FEnv) (σ : State) (s : FExpr) (e : Expr) (f : Bool) (h
 theorem storeVal_rep (σ : State) (df : Bool) (fe : FE) (q : Rat) (h : Rep σ fe q) :
     evalZ σ (storeVal df fe) = storeQ df q := by
   obtain ⟨e, f⟩ := fe
-  have cast_inj : ∀ a b : Int, (a : Rat) = (b : Rat) → a = b := fun a b hh => Rat.intCast_inj.mp hh
   cases df <;> cases f <;>
     simp only [storeVal, storeQ, Rep, scale, Bool.false_eq_true, if_false, if_true, Bool.and_self, Bool.and_true,
-      Bool.and_false, Bool.not_true, Bool.not_false, Bool.true_and, Bool.false_and] at h ⊢
+      Bool.and_false, Bool.not_true, Bool.not_false] at h ⊢
   · rw [Rat.mul_one] at h
     rw [← h, Rat.floor_intCast]
   · simp only [evalZ, BinOp.evalZ]
@@ -334,8 +333,98 @@ def fitS (σ : State) (b : Bool) : Expr → Bool
 /-- **the full-strength statement** (signed operands allowed): what the property text asks for.  Refuted below. -/
 def C02_full : Prop := ∀ (p : FProg) (code : List Insn) (no : Nat) (s : FExpr) (e : Expr),
   p.stmts = [.set (.xreg no) s] → progOkF p = true → emitFProg p = .ok code →
-  compileF p.env (.set (.xreg no) s) = .ok (.reg no true e) → ∀ σ : State, fitS σ true e = true →
-    ∃ σ', run code (code.length + 1) { σ with pc := 0 } = .fell { σ' with pc := code.length } ∧
+  (compileF p.env (.set (.xreg no) s)).toOption = some (.reg no true e) → ∀ σ : State, fitS σ true e = true →
+    ∃ σ' : State, run code (code.length + 1) { σ with pc := 0 } = .fell { σ' with pc := code.length } ∧
       σ'.regs no = BitVec.ofInt 64 (wantZ p.env (.set (.xreg no) s) σ)
+
+/-! ## non-vacuity and refutations (concrete programs and machine states, closed by kernel evaluation of the
+generator model and of `Ebpf.run`) -/
+
+def codeOfF (p : FProg) : List Insn := match emitFProg p with | .ok c => c | .error _ => []
+
+theorem codeOfF_ok (p : FProg) (h : (emitFProg p).toOption.isSome = true) : emitFProg p = .ok (codeOfF p) := by
+  unfold codeOfF
+  cases hc : emitFProg p with
+  | ok c => rfl
+  | error e => rw [hc] at h; simp [Except.toOption] at h
+
+/-- `n` bytes at `addr` after running the code from `s` (0 if the run does not fall out at the end) -/
+def memAfter (code : List Insn) (s : State) (addr n : Nat) : Nat :=
+  match run code (code.length + 1) s with
+  | .fell s' => loadN s'.mem (BitVec.ofNat 64 addr) n
+  | _ => 0
+
+def stdVarsF : List FVarDecl := [⟨"vq", some .q, .loc⟩, ⟨"vI", some .I, .loc⟩, ⟨"vx", Option.none, .loc⟩]
+
+/-- `self.x[2] = self.x[3] * 2.5 + self.r[4] / 0.29`; `self.vq = self.vx // 3` -/
+def eGood : FExpr := .bin .add (.bin .mul (.xreg 3) (.dec 250000)) (.bin .truediv (.reg .r 4) (.dec 29000))
+def pGood : FProg := ⟨[1, 3, 4, 10], stdVarsF,
+  [.set (.xreg 2) eGood, .set (.var "vq") (.bin .floordiv (.var "vx") (.int 3))]⟩
+/-- x3 = 1.5, r4 = 2, vx = 7.5 -/
+def sGood : State := C01.st0 [(3, 150000), (4, 2), (10, 4096)] [(4072, 0xb0), (4073, 0x71), (4074, 0x0b)]
+
+/-- `pGood` satisfies every hypothesis of `C02_partial`, is accepted (12 instructions), the fit precondition holds in
+`sGood`, and the results are 1.5·2.5 + 2/0.29 = 10.64655 and 7.5 // 3 = 2 -/
+example : progOkF pGood = true ∧ (emitFProg pGood).toOption.isSome = true ∧ (codeOfF pGood).length = 12 ∧
+    (match pairs pGood.env pGood.stmts with
+      | some [a, b] => divOkB sGood true a.c.rhs && divOkB sGood true b.c.rhs
+      | _ => false) = true ∧
+    C01.regAfter (codeOfF pGood) sGood 2 = 1064655 ∧ memAfter (codeOfF pGood) sGood 4088 8 = 2 := by
+  decide +kernel
+
+/-- *divmod-negative* in a fixed × fixed product: `self.x[2] = self.x[3] * 2.5` -/
+def eNeg : FExpr := .bin .mul (.xreg 3) (.dec 250000)
+def pNeg : FProg := ⟨[1, 3, 10], stdVarsF, [.set (.xreg 2) eNeg]⟩
+def tNeg : Expr := .bin .div (.bin .mul (.reg 3 true true) (.const 250000) true .plain) (.const 100000) true .plain
+/-- x3 = −1.0 -/
+def sNeg : State := C01.st0 [(3, 18446744073709451616), (10, 4096)]
+
+theorem divmod_negative_mul_refuted :
+    progOkF pNeg = true ∧ (emitFProg pNeg).toOption.isSome = true ∧
+    (compileF pNeg.env (.set (.xreg 2) eNeg)).toOption = some (.reg 2 true tNeg) ∧
+    negAtDiv sNeg tNeg = true ∧ fitS sNeg true tNeg = true ∧ evalZ sNeg tNeg = -250000 ∧
+    C01.regAfter (codeOfF pNeg) sNeg 2 = 184467440487095 := by decide +kernel
+
+/-- **the unchanged generator violates the full-strength statement**: −1.0 · 2.5 is stored as 1844674404.87095 -/
+theorem C02_full_refuted : ¬ C02_full := by
+  intro h
+  obtain ⟨hok, hacc, hcomp, _, hfit, hval, hreg⟩ := divmod_negative_mul_refuted
+  obtain ⟨σ', hrun, hv⟩ := h pNeg (codeOfF pNeg) 2 eNeg tNeg rfl hok (codeOfF_ok pNeg hacc) hcomp sNeg hfit
+  have hc : compileF pNeg.env (.set (.xreg 2) eNeg) = .ok (.reg 2 true tNeg) := by
+    cases hx : compileF pNeg.env (.set (.xreg 2) eNeg) with
+    | error e => rw [hx] at hcomp; simp [Except.toOption] at hcomp
+    | ok c => rw [hx] at hcomp; simp only [Except.toOption, Option.some.injEq] at hcomp; rw [hcomp]
+  have hw := compile_want pNeg.env sNeg _ _ hc (by decide +kernel)
+  simp only [CSt.rhs] at hw
+  rw [← hw, hval] at hv
+  have := C01.regAfter_of_run (k := 2) hrun
+  have e : ({ sNeg with pc := 0 } : State) = sNeg := rfl
+  rw [e, hreg, hv] at this
+  revert this
+  decide +kernel
+
+/-- *divmod-negative* in a store of a fixed value into an integer variable: `self.vq = self.x[3]` with x3 = −2.5
+stores 184467440737093; both −3 (floor) and −2 (truncation) would be acceptable -/
+def pStore : FProg := ⟨[1, 3, 10], stdVarsF, [.set (.var "vq") (.xreg 3)]⟩
+def sStore : State := C01.st0 [(3, 18446744073709301616), (10, 4096)]
+theorem divmod_negative_store_refuted :
+    progOkF pStore = true ∧ (emitFProg pStore).toOption.isSome = true ∧
+    memAfter (codeOfF pStore) sStore 4088 8 = 184467440737093 ∧
+    (BitVec.ofInt 64 (-3)).toNat = 18446744073709551613 ∧ (BitVec.ofInt 64 (-2)).toNat = 18446744073709551614 := by
+  decide +kernel
+
+/-- *fixed-to-short*: `self.vI = self.x[3]` with x3 = 50000.0 (scaled 5·10^9 does not fit 32 bits, the value 50000
+does): the division by `FIXED_BASE` runs in 32 bits and stores 7050.  Outside the property's fit precondition (the
+scaled operand does not fit the narrowest width involved); recorded, excluded from `C02_partial` by `divOk`. -/
+def stShort : FStmt := .set (.var "vI") (.xreg 3)
+def pShort : FProg := ⟨[1, 3, 10], stdVarsF, [stShort]⟩
+def sShort : State := C01.st0 [(3, 5000000000), (10, 4096)]
+theorem fixed_to_short_div32_refuted :
+    progOkF pShort = true ∧ (emitFProg pShort).toOption.isSome = true ∧ fixedToShort pShort.env stShort = true ∧
+    memAfter (codeOfF pShort) sShort 4084 4 = 7050 ∧
+    (match pairs pShort.env pShort.stmts with
+      | some [a] => divOkB sShort false a.c.rhs == false && evalZ sShort a.c.rhs == 50000
+      | _ => false) = true := by
+  decide +kernel
 
 end Ebv.C02
